@@ -599,6 +599,29 @@ class CFG:
                     sn = self._sentinel(e.src, f)
                     if sn is not None and len(sn) == 1:
                         out.extend(self.facts_at(sn[0], _depth + 1))
+                    # `x == <literal>` holds, and x was bound either to other literals or - in one place - to an expression E: that
+                    # binding ran, and E == <literal>
+                    if f.op == '==' and f.pol and f.left is not None and f.right is not None:
+                        nm_, lit_ = (f.left, f.right) if isinstance(f.left, ast.Name) and isinstance(f.right, ast.Constant) else \
+                            (f.right, f.left) if isinstance(f.right, ast.Name) and isinstance(f.left, ast.Constant) else (None, None)
+                        if nm_ is not None:
+                            defs_ = self.reaching_defs(e.src, nm_.id)
+                            vals_ = [(d_, self.def_value(d_, nm_.id) if d_.ast is not None else None) for d_ in defs_]
+                            if len(vals_) >= 2 and all(v_ is not None for _, v_ in vals_):
+                                consts_ = [(d_, v_) for d_, v_ in vals_ if isinstance(v_, ast.Constant)]
+                                exprs_ = [(d_, v_) for d_, v_ in vals_ if not isinstance(v_, ast.Constant)]
+                                try:
+                                    differ = all(type(v_.value) is type(lit_.value) and v_.value != lit_.value for _, v_ in consts_)
+                                except Exception:
+                                    differ = False
+                                if len(exprs_) == 1 and consts_ and differ and _pure_value(exprs_[0][1]):
+                                    d0, v0 = exprs_[0]
+                                    reads0 = {x.id for x in ast.walk(v0) if isinstance(x, ast.Name)}
+                                    if all({d.id for d in self.reaching_defs(d0, r_)} == {d.id for d in self.reaching_defs(e.src, r_)} for r_ in reads0):
+                                        out.extend(self.facts_at(d0, _depth + 1))
+                                        eq_ = ast.copy_location(ast.Compare(left=v0, ops=[ast.Eq()], comparators=[lit_]), lit_)
+                                        ast.fix_missing_locations(eq_)
+                                        out.extend(implied(eq_, True))
                 if _depth < 2 and isinstance(f.node, ast.Name) and f.op is None and f.text == f.node.id:
                     src = e.src
                     defs = self.reaching_defs(src, f.node.id)
